@@ -40,3 +40,6 @@ func VerifHandlerState(cm *ConnManager) string {
 	sort.Strings(ps)
 	return fmt.Sprintf("pending=%v conns=%d", ps, len(m[1]))
 }
+
+// VerifForget drops the manager from the registry (call after Stop).
+func VerifForget(cm *ConnManager) { verifMaps.Delete(cm) }
